@@ -862,6 +862,8 @@ val doc_of :
 
 val dir_doc : yaml
 
+val file_paths : (string list * yaml option) list -> string list list
+
 val class_table : (string list * yaml option) list -> cls_entry list res
 
 val node_table :
